@@ -11,7 +11,7 @@ LEAN_MODULES = ["Properties.C02", "Properties.Core", "Properties.CoreWrap", "Pro
 RULE = (
     "seeded contexts that are conforming by construction (0 perturbations in 3 of 4 cases), ranks 0-5, zero-sized axes, zero-length groups, "
     "tuples of length 1-3, optionals, providers; each presented (a) directly to DLTypeContext and (b) as a call of a generated dltyped "
-    "function in positional / keyword / mixed style, with defaulted extra parameters of hashable and unhashable types; the body counts its "
+    "function in positional / keyword / mixed style (also with keyword-only and positional-only hinted parameters), with defaulted extra parameters of hashable and unhashable types; the body counts its "
     "calls and records the identity of its arguments and of its result. non-trivial = distinct line judged 'conforms, ordered' by the oracle"
 )
 
@@ -25,7 +25,7 @@ def cases(tier, rng, run):
         c = gen_ctx.gen_ctx(rng, perturb=(0, 0, 0, 1), tuple_p=0.25, ret_p=0.4)
         if i % 3 == 0:
             out.append(Case(c.ctx_line(), "ctx", {"ctx": c}))
-        style = rng.choice(["pos", "kw", "mixed", "fwd"])
+        style = rng.choice(["pos", "kw", "mixed", "fwd", "kwonly", "posonly"])
         line = c.call_line("func", style)
         r = rng.random()
         if r < 0.3:
